@@ -386,6 +386,23 @@ func (u UnitBytes) MarshalJSON() ([]byte, error) {
  ("C18", "empty-initial-name", "K", "dotenv/parser.go", '''	key, offset, inherited := src, len(src), true
 ''', '''	key, offset, inherited := "", 0, false
 ''', "a name at the end of the source is lost again (KEYTRIM-src)"),
+ ("C09", "bytes-text-not-read-back", "K", "types/bytes.go", '''		if n, err := strconv.ParseInt(v, 10, 64); err == nil {
+			*u = UnitBytes(n)
+			return nil
+		}
+''', '''		_ = strconv.Itoa
+''', "the decimal text the marshallers render is no longer parsed as a signed number (CODECINT)"),
+ ("C04", "empty-document-ends-file", "K", "loader/loader.go", '''			processor = reset
+''', '''			if raw == nil {
+				break
+			}
+			processor = reset
+''', "the document loop is left on an empty document (MULTIDOC)"),
+ ("C12", "dangling-link-returns-raw", "K", "paths/unix.go", '''	return utils.ResolveSymbolicLink(str)''', '''	resolved, err := utils.ResolveSymbolicLink(str)
+	if err != nil {
+		return value, nil
+	}
+	return resolved, nil''', "a failed link resolution returns the raw value and no error (ERRMUST)"),
 ]
 
 
